@@ -1,2 +1,119 @@
--- placeholder driver (model for C10 not built yet)
-def main : IO Unit := pure ()
+/-
+  Driver for the stream-table model (C10).
+    hist <streaming 0|1> <lifetime> <linger> <t0> <nprox> <seq0> <mask> <nops> {op}*
+        op = call <p> <data> | inext <i> | iclose <i> | pcall <p> | prel <p>
+           | open <conn> <data> | next <id> <conn> | close <id> | disc <conn> | hk | tick <dt>
+        data = P (not an iterator) | I:<item,...>   item = v<n> (yield n) | r<n> (raise n)
+      → r1;r2;... | <table> | <proxies> | <iters> | <server log length>
+        table   = id:owner:created:linger:rest,...  (dict order; owner `n` = None)
+        proxies = conn/seq,...      iters = proxy/pyroseq/sid,...
+    race <modes: 4 letters s|t for next,close,disconnect,housekeeping> <lifetime> <linger> <now> <table> <heap> {prog}*   prog = call+call+..  call = N.sid.conn | C.sid | D.conn | H
+        (see PyroModel/StreamsRace.lean)  → sorted set of outcomes of ALL interleavings
+-/
+import PyroModel.Streams
+import PyroModel.StreamsRace
+import Driver.Util
+
+open Pyro Pyro.Streams Driver
+
+def parseItem (s : String) : Option Item :=
+  if s.startsWith "v" then (s.drop 1).toNat?.map .val
+  else if s.startsWith "r" then (s.drop 1).toNat?.map .raises
+  else none
+
+def parseItems (s : String) : Option (List Item) :=
+  if s == "" ∨ s == "-" then some [] else (s.splitOn ",").mapM parseItem
+
+def parseData (s : String) : Option Data :=
+  if s == "P" then some .plain
+  else if s.startsWith "I:" then (parseItems (s.drop 2).toString).map .iter
+  else none
+
+def parseCOps : Nat → List String → Option (List COp)
+  | 0, [] => some []
+  | n + 1, "call" :: p :: d :: rest => do
+    let r ← parseCOps n rest
+    pure (.call (← p.toNat?) (← parseData d) :: r)
+  | n + 1, "inext" :: i :: rest => do
+    let r ← parseCOps n rest
+    pure (.inext (← i.toNat?) :: r)
+  | n + 1, "iclose" :: i :: rest => do
+    let r ← parseCOps n rest
+    pure (.iclose (← i.toNat?) :: r)
+  | n + 1, "pcall" :: p :: rest => do
+    let r ← parseCOps n rest
+    pure (.pcall (← p.toNat?) :: r)
+  | n + 1, "prel" :: p :: rest => do
+    let r ← parseCOps n rest
+    pure (.prelease (← p.toNat?) :: r)
+  | n + 1, "open" :: c :: d :: rest => do
+    let r ← parseCOps n rest
+    pure (.srv (.open (← c.toNat?) (← parseData d)) :: r)
+  | n + 1, "next" :: id :: c :: rest => do
+    let r ← parseCOps n rest
+    pure (.srv (.next (← id.toNat?) (← c.toNat?)) :: r)
+  | n + 1, "close" :: id :: rest => do
+    let r ← parseCOps n rest
+    pure (.srv (.close (← id.toNat?)) :: r)
+  | n + 1, "disc" :: c :: rest => do
+    let r ← parseCOps n rest
+    pure (.srv (.disconnect (← c.toNat?)) :: r)
+  | n + 1, "hk" :: rest => do
+    let r ← parseCOps n rest
+    pure (.srv .housekeeping :: r)
+  | n + 1, "tick" :: dt :: rest => do
+    let r ← parseCOps n rest
+    pure (.srv (.tick (← dt.toNat?)) :: r)
+  | _, _ => none
+
+def itemStr : Item → String
+  | .val v => s!"v{v}"
+  | .raises e => s!"r{e}"
+
+def itemsStr (l : List Item) : String := if l.isEmpty then "-" else ",".intercalate (l.map itemStr)
+
+def resStr : Res → String
+  | .stream id => s!"stream{id}"
+  | .noStream => "nostream"
+  | .notIter => "notiter"
+  | .item v => s!"item{v}"
+  | .stop => "stop"
+  | .raised e => s!"raised{e}"
+  | .terminated => "term"
+  | .ok => "ok"
+
+def cresStr : CRes → String
+  | .iter i => s!"iter{i}"
+  | .protoErr => "protoerr"
+  | .plain => "plain"
+  | .srv r => resStr r
+  | .connClosed => "connclosed"
+  | .none => "none"
+  | .bad => "bad"
+
+def optStr : Option Nat → String
+  | none => "n"
+  | some c => toString c
+
+def tableStr (t : Table) : String :=
+  if t.isEmpty then "-" else
+  ";".intercalate (t.map fun (id, e) => s!"{id}:{optStr e.owner}:{e.created}:{e.linger}:{itemsStr e.rest}")
+
+def listStr (l : List String) : String := if l.isEmpty then "-" else ",".intercalate l
+
+def stepLine : List String → String
+  | "hist" :: streaming :: lifetime :: linger :: t0 :: nprox :: seq0 :: mask :: nops :: rest =>
+    match lifetime.toInt?, linger.toInt?, t0.toNat?, nprox.toNat?, seq0.toNat?, mask.toNat?,
+          nops.toNat?.bind (fun k => parseCOps k rest) with
+    | some lt, some lg, some t, some np, some s0, some m, some ops =>
+      let cfg : Settings := { streaming := streaming == "1", lifetime := lt, linger := lg }
+      let (s, rs) := crun cfg m (Sys.init t np s0) ops
+      ";".intercalate (rs.map cresStr) ++ " | " ++ tableStr s.srv.table ++ " | " ++
+        listStr (s.proxies.map fun p => s!"{optStr p.conn}/{p.seq}") ++ " | " ++
+        listStr (s.iters.map fun it => s!"{optStr it.proxy}/{it.pyroseq}/{it.sid}") ++ " | " ++
+        toString s.log.length
+    | _, _, _, _, _, _, _ => "bad-op"
+  | "race" :: rest => Pyro.StreamsRace.raceLine rest
+  | _ => "bad-op"
+
+def main : IO Unit := runDriver stepLine
